@@ -619,6 +619,164 @@ def no_content_index(wb, a):
     yield ({"how": "rename content_index.csv to Content_Index.csv"}, w, r"No content index sheet provided")
 
 
+# ------------------------------------------------------------------ detection sites of the former finding F-C15-a
+
+BAD_INDEX_TYPE = "create_flows"
+BAD_ROW_TYPE = "send_mesage"
+BAD_CONTACT_ROW = "set_contact_email"
+P_INDEX_TYPE = r"invalid type: '%s'"
+P_SHEET_COUNT = r"exactly one sheet_name has to be\s+specified"
+P_FLOW_OUTCOME = r"Condition from start_new_flow must be"
+P_HOOK_OUTCOME = r"Condition from call_webhook/transfer_airtime must be"
+P_NO_DEFAULT = r"does not support default exits"
+
+
+def unknown_index_type(wb, a):
+    """an index row whose type the dispatch does not know: the type of every live row mistyped / blanked, and a new
+    row of an unknown type at every position of every index sheet (nested ones included)"""
+    for name, i, r in index_rows(wb):
+        n = len(A.split1(r.get("sheet_name", "")))
+        for how, t in (("mistype", r.get("type", "") + "s"), ("blank", "")):
+            # the sheet_name count is tested before the type (data_sheet rows may name several sheets)
+            pat = (P_INDEX_TYPE % t) if n == 1 else P_SHEET_COUNT
+            yield ({"index": name, "row": i, "how": f"{how} type of {r.get('type', '')} row"}, _with_index_row(wb, name, i, type=t), pat)
+    seen = []
+    for name, _i, _r in index_rows(wb):
+        if name not in seen:
+            seen.append(name)
+    for name in ["content_index"] + [n for n in seen if n != "content_index"]:
+        rows = wb["sheets"][name]["rows"]
+        for p in range(len(rows) + 1):
+            # rows after a draft row etc. are all live in the bases; the new row names a sheet that does not exist:
+            # no sheet is looked up for a row of unknown type
+            for how, new, pat in (
+                ("insert row of unknown type", {"type": BAD_INDEX_TYPE, "sheet_name": NOSHEET}, P_INDEX_TYPE % BAD_INDEX_TYPE),
+                ("insert row of unknown type without sheet_name", {"type": BAD_INDEX_TYPE, "sheet_name": ""}, P_SHEET_COUNT),
+            ):
+                w = wb_copy(wb)
+                w["sheets"][name]["rows"] = _insert(rows, p, [new])
+                yield ({"index": name, "row": p, "how": how, "inserted": True}, w, pat)
+
+
+def _outcome_sources():
+    return (
+        ("start_new_flow", {"type": "start_new_flow", "from": "start", "message_text": "outcome flow"}, "Complet", P_FLOW_OUTCOME),
+        ("call_webhook", {"type": "call_webhook", "from": "start", "webhook.url": "http://example.org/o", "webhook.method": "GET",
+                          "webhook.headers": "", "save_name": "outcome hook"}, "Sucess", P_HOOK_OUTCOME),
+        ("transfer_airtime", {"type": "transfer_airtime", "from": "start", "message_text": "KES;10|", "save_name": "outcome air"},
+         "done", P_HOOK_OUTCOME),
+    )
+
+
+def bad_outcome(wb, a):
+    """an edge leaving a start_new_flow / call_webhook / transfer_airtime row with a condition that is not one of the
+    row's outcomes: on the existing edges of the workbook, and on a new source row + leaving row at every position"""
+    for n, rows, st in flow_sheets(wb, a):
+        kind = {}
+        for i, r in enumerate(rows):
+            if st[i]["eval"] is not True:
+                continue
+            t = r.get("type", "").strip()
+            if t not in A.NOT_PLAIN | {"no_op"} or t in ("go_to", "hard_exit", "loose_exit", "insert_as_block"):
+                edges = A.edge_lists(r)
+                for k, e in enumerate(edges):
+                    src = kind.get(e["from"]) if e["from"] else None
+                    if src and e["condition"] and "{" not in e["condition"] and len(edges) == max(1, len(A.split1(r.get("condition", "")))):
+                        conds = [x["condition"] for x in edges]
+                        conds[k] = {"flow": "Complet", "hook": "Sucess"}[src]
+                        rr = [dict(x) for x in rows]
+                        rr[i]["condition"] = ";".join(conds) if len(conds) > 1 else conds[0]
+                        yield ({"sheet": n, "pos": i, "edge": k, "how": "misspell the condition of an edge leaving a %s row" % src},
+                               _with_rows(wb, n, rr), P_FLOW_OUTCOME if src == "flow" else P_HOOK_OUTCOME)
+            if t not in A.NOT_PLAIN and r.get("row_id", "").strip() and "{" not in r.get("row_id", ""):
+                kind[r["row_id"].strip()] = A.OUTCOME_SRC.get(t)
+        for p, d in insert_positions(rows, st):
+            x = earlier_node_id(rows, st, p)
+            for j, (tname, src, bad, pat) in enumerate(_outcome_sources()):
+                src = dict(src, row_id="zqsrc")
+                # the leaving row: a plain row, a go_to (when there is a row to go to) or an exit, in turn
+                leave = [
+                    {"type": "send_message", "from": "zqsrc", "condition": bad, "message_text": "after outcome"},
+                    {"type": "go_to", "from": "zqsrc", "condition": bad, "message_text": x or "zqsrc"},
+                    {"type": "hard_exit", "from": "zqsrc", "condition": bad},
+                ][(p + j) % 3]
+                yield ({"sheet": n, "pos": p, "how": f"insert {tname} row left by a {leave['type']} row on condition {bad}", "depth": d},
+                       _with_rows(wb, n, _insert(rows, p, [src, leave])), pat)
+            # a condition that has a name / type but no value is not the unconditional edge; the unconditional edge has
+            # a default exit to go to on a webhook, none on a start_new_flow row
+            tname, src, _bad, pat = _outcome_sources()[p % 3]
+            src = dict(src, row_id="zqsrc")
+            yield ({"sheet": n, "pos": p, "how": f"insert {tname} row left on a condition with a name but no value", "depth": d},
+                   _with_rows(wb, n, _insert(rows, p, [src, {"type": "send_message", "from": "zqsrc", "condition": "", "condition_name": "Named",
+                                                            "message_text": "after outcome"}])), pat)
+            src = dict(_outcome_sources()[0][1], row_id="zqsrc")
+            yield ({"sheet": n, "pos": p, "how": "insert start_new_flow row left unconditionally", "depth": d},
+                   _with_rows(wb, n, _insert(rows, p, [src, {"type": "send_message", "from": "zqsrc", "message_text": "after outcome"}])),
+                   P_NO_DEFAULT)
+
+
+def explicit_columns(sh):
+    """the same flow sheet with the main-argument columns spelt out instead of `message_text` (the row parser then
+    never needs `row_type_to_main_arg`)"""
+    h = [x for x in sh["h"] if x != "message_text"]
+    rows = []
+    for r in sh["rows"]:
+        q = {k: v for k, v in r.items() if k != "message_text"}
+        f = A.MAINARG_FIELD.get(r.get("type", "").strip())
+        if f and r.get("message_text", "") != "":
+            q[f] = r["message_text"]
+            if f not in h:
+                h.append(f)
+        rows.append(q)
+    if not any(x.startswith("mainarg_") or x == "webhook.body" for x in h):
+        h.append("mainarg_message_text")
+    return {"h": h, "rows": rows}
+
+
+def with_explicit_columns(wb, a, only=None):
+    w = wb_copy(wb)
+    for n in a.used_sheets:
+        if only is None or n == only:
+            w["sheets"][n] = explicit_columns(w["sheets"][n])
+    return w
+
+
+def _row_type_sites(wb, a, bad_type, cell, pat_log):
+    pat_key = r"KeyError: '%s'" % bad_type
+    for n, rows, st in flow_sheets(wb, a):
+        # (a) the sheet as it is (a `message_text` column): the row parser fails on the row wherever it sits — evaluated
+        # or not, inside an omitted block, even in place of a block row
+        for p, d in insert_positions(rows, st, need_eval=False):
+            ev = p == len(rows) or st[p]["scope"] is True
+            yield ({"sheet": n, "pos": p, "how": f"insert {bad_type} row (sheet with message_text column)", "depth": d, "evaluated": ev},
+                   _with_rows(wb, n, _insert(rows, p, [{"type": bad_type, "from": "start", "message_text": cell}])), pat_key)
+        for i, r in enumerate(rows):
+            rr = [dict(x) for x in rows]
+            rr[i]["type"] = bad_type
+            yield ({"sheet": n, "pos": i, "how": f"retype {r.get('type', '')} row as {bad_type} (sheet with message_text column)"},
+                   _with_rows(wb, n, rr), pat_key)
+        # (b) the same sheet with the main-argument columns spelt out: the row reaches the dispatch of the action
+        ex = explicit_columns(wb["sheets"][n])
+        wx = wb_copy(wb)
+        wx["sheets"][n] = ex
+        for p, d in insert_positions(rows, st):
+            new = {"type": bad_type, "from": "start"}
+            if cell:
+                new["mainarg_value"] = cell
+            w = wb_copy(wx)
+            w["sheets"][n]["rows"] = _insert(ex["rows"], p, [new])
+            _fit_headers(w["sheets"][n])
+            yield ({"sheet": n, "pos": p, "how": f"insert {bad_type} row (main-argument columns spelt out)", "depth": d}, w, pat_log)
+
+
+def unknown_row_type(wb, a):
+    yield from _row_type_sites(wb, a, BAD_ROW_TYPE, "x", r"Row type %s not implemented" % BAD_ROW_TYPE)
+
+
+def unknown_contact_property(wb, a):
+    yield from _row_type_sites(wb, a, BAD_CONTACT_ROW, "someone@example.org", r"Unknown operation %s" % BAD_CONTACT_ROW)
+
+
 # class name -> (generator, model fault kinds it may map to, listed in the property statement?)
 CLASSES = {
     "unterminated block": (unterminated, {"unterminated", "wrongTerminator", "edgeFromUnknownRow"}, True),
@@ -643,6 +801,10 @@ CLASSES = {
     "conflicting uuids": (uuid_conflict, {"uuidConflict"}, True),
     "trigger for unknown flow": (trigger_unknown_flow, {"triggerUnknownFlow"}, True),
     "no content index": (no_content_index, {"noContentIndex"}, True),
+    "unknown index row type": (unknown_index_type, {"unknownIndexType", "sheetNameCount"}, False),
+    "bad outcome condition": (bad_outcome, {"badOutcomeCondition", "noDefaultExitFromFlow"}, False),
+    "unknown row type": (unknown_row_type, {"unknownRowType", "rowTypeWithoutMainArg"}, False),
+    "unknown contact property": (unknown_contact_property, {"unknownContactProperty", "rowTypeWithoutMainArg"}, False),
 }
 
 # what the command prints for each model fault kind (tie: observed kind of a failing run)
@@ -670,4 +832,11 @@ KIND_PATTERNS = {
     "uuidConflict": r"has multiple uuids",
     "triggerUnknownFlow": r"Trigger references undefined flow name",
     "noContentIndex": r"No content index sheet provided",
+    "unknownIndexType": r"invalid type: '",
+    "sheetNameCount": P_SHEET_COUNT,
+    "rowTypeWithoutMainArg": r"KeyError: '(%s|%s)'" % (BAD_ROW_TYPE, BAD_CONTACT_ROW),
+    "unknownContactProperty": r"Unknown operation set_contact_",
+    "unknownRowType": r"Row type \S+ not implemented",
+    "noDefaultExitFromFlow": P_NO_DEFAULT,
+    "badOutcomeCondition": P_FLOW_OUTCOME + "|" + P_HOOK_OUTCOME,
 }
